@@ -10,9 +10,11 @@
 (* as OFFPATH), never a false alarm.                                        *)
 EXTENDS Workspace, TLC, Json
 
-VARIABLE path
-gvars == <<defs, byNs, byNm, evals, res, fresh, path>>
-View  == <<defs, byNs, byNm, evals, fresh>>
+VARIABLES path, ld      \* ld: the path contains a restart (kept in the VIEW, so that the paths to the states reached by
+                        \* operations alone stay free of restarts, and every edge is also toured from the states a restart leaves)
+Ids0(S) == {m.id : m \in S}
+gvars == <<defs, byNs, byNm, evals, res, fresh, path, ld>>
+View  == <<defs, byNs, byNm, evals, fresh, ld>>
 
 GAdd(m) == /\ Add(m)
            /\ (Clash(m, defs) # {} => evals' = evals)          \* rejected add keeps evaluators
@@ -29,12 +31,17 @@ GReplace(m) ==
 GClear  == Clear  /\ path' = Append(path, [op |-> "clear"])
 GDeploy == Deploy /\ path' = Append(path, [op |-> "deploy"])
 GEval(nm) == Evaluate(nm) /\ path' = Append(path, [op |-> "eval", nm |-> nm])
+\* a restart on a directory holding the models S: only clash-free S, so that the outcome does not depend on the order in
+\* which the file system lists the files (directories with clashing files come from the random histories)
+GLoad(S) == ~ld /\ ld' = TRUE /\ ClashFree(S) /\ LoadDir(S) /\ path' = Append(path, [op |-> "load", ms |-> Ids0(S)])
 
-GInit == Init /\ path = <<>>
-GNext == \/ \E m \in Models : GAdd(m) \/ GReplace(m)
-         \/ \E ns \in Namespaces, nm \in Names : GRemove(ns, nm)
-         \/ GClear \/ GDeploy
-         \/ \E nm \in Names : GEval(nm)
+GInit == Init /\ path = <<>> /\ ld = FALSE
+GNext == \/ /\ UNCHANGED ld
+            /\ \/ \E m \in Models : GAdd(m) \/ GReplace(m)
+               \/ \E ns \in Namespaces, nm \in Names : GRemove(ns, nm)
+               \/ GClear \/ GDeploy
+               \/ \E nm \in Names : GEval(nm)
+         \/ \E S \in SUBSET Models : GLoad(S)
 
 Ids(S) == {m.id : m \in S}
 Emit == PrintT(<<"EDGE", ToJson([path |-> path',
